@@ -613,6 +613,36 @@ pub fn catalogue(f: &Frame, rng: &mut Rng) -> Vec<Mal> {
             }
         }
     }
+    // v5: payload flagged as UTF-8 (Payload Format Indicator = 1) that is not UTF-8: PUBLISH and will
+    if v5 {
+        for i in 0..f.body.len() {
+            let set = match &f.body[i] {
+                Seg::Props { set, .. } if set == "Publish" || set == "Will" => set.clone(),
+                _ => continue,
+            };
+            // the payload segment that belongs to this property block
+            let pay = (i + 1..f.body.len()).find(|k| match &f.body[*k] {
+                Seg::Leaf { kind: Kind::Payload, .. } => set == "Publish",
+                Seg::Field { label, .. } => set == "Will" && label == "will.payload",
+                _ => false,
+            });
+            let Some(pi) = pay else { continue };
+            for bad in [&[0x80u8][..], &[0x61, 0x80, 0x62], &[0xC0, 0x80], &[0xFF, 0xFC], &[0xED, 0xA0, 0x80], &[0xE2, 0x82]] {
+                let mut g = f.clone();
+                if let Seg::Props { items, .. } = &mut g.body[i] {
+                    items.retain(|it| !matches!(&it[0], Seg::Leaf { bytes, .. } if bytes[0] == 0x01));
+                    items.insert(0, vec![Seg::Leaf { label: "prop.id".into(), kind: Kind::PropId, bytes: vec![1] },
+                                         Seg::Leaf { label: "prop.bool".into(), kind: Kind::BoolVal, bytes: vec![1] }]);
+                }
+                g.body[pi] = match &f.body[pi] {
+                    Seg::Leaf { label, kind, .. } => Seg::Leaf { label: label.clone(), kind: kind.clone(), bytes: bad.to_vec() },
+                    Seg::Field { label, text, .. } => Seg::Field { label: label.clone(), text: *text, content: bad.to_vec() },
+                    other => other.clone(),
+                };
+                push(&mut out, "payload_fmt", format!("{set} payload"), &g);
+            }
+        }
+    }
     // SUBSCRIBE / UNSUBSCRIBE without topics
     if t == 8 || t == 10 {
         let mut g = f.clone();
